@@ -887,7 +887,36 @@ class Printer:
                 auto = None
             if auto:
                 self.auto_loops[self.loops] = auto
+        elif cond:
+            # an ITERATOR loop (`for (auto it = v.begin(); it != v.end(); ++it)`, also as a while loop): the class-type variable
+            # that an overloaded comparison bounds and an overloaded ++ / -- / += / -= advances; only the name is published
+            # (NV_LOOPVAR_<c_name>_<k>), there is no default contract for such loops
+            it = self.find_loop_iterator(cond, parts)
+            if it:
+                self.loop_counters[self.loops] = it
         return f'NV_LOOP_{self.cname}_{self.loops}'
+
+    def find_loop_iterator(self, cond, parts):
+        def opcall(x, names):
+            if x.get('kind') != 'CXXOperatorCallExpr' or len(x.get('inner', [])) < 2:
+                return None
+            rd = unwrap(x['inner'][0]).get('referencedDecl') or {}
+            return x['inner'][1:] if rd.get('name') in names else None
+        advanced = set()
+        for part in parts:
+            for x in astload_walk(part or {}):
+                args = opcall(x, ('operator++', 'operator--', 'operator+=', 'operator-='))
+                if args:
+                    u = unwrap(args[0])
+                    if u.get('kind') == 'DeclRefExpr' and u['referencedDecl'].get('kind') == 'VarDecl':
+                        advanced.add(u['referencedDecl'].get('id'))
+        for x in astload_walk(cond):
+            for side in opcall(x, ('operator!=', 'operator<', 'operator<=', 'operator>', 'operator>=')) or ():
+                u = unwrap(side)
+                if u.get('kind') == 'DeclRefExpr' and u['referencedDecl'].get('id') in advanced:
+                    rid = u['referencedDecl'].get('id')
+                    return self.renamed.get(rid, u['referencedDecl'].get('name'))
+        return None
 
     def auto_loop_contract(self, cond, parts):
         """NV_AUTOLOOP_<c_name>_<k>: the contract of a canonical counting loop whose body writes nothing the contracts model
@@ -1216,6 +1245,11 @@ class Printer:
             if d:
                 s += self.stmt(d, ind + 1)
         mac = self.loop_macro()
+        # the range-for's own iterator variable (`__begin1`), published like any other loop counter: a loop contract written with
+        # NV_LOOPVAR_<c_name>_<k> then also fits the same loop written with an explicit iterator
+        bv = [x for x in (beg or {}).get('inner', []) if x.get('kind') == 'VarDecl']
+        if bv and bv[0].get('name'):
+            self.loop_counters[self.loops] = bv[0]['name']
         self.loop_scope.append(len(self.scopes))
         s += f'{p}  for (; {self.cond(cond)}; {self.cond(inc)})\n{p}  {mac}\n{p}  {{\n'
         self.scopes.append([])
